@@ -17,6 +17,7 @@ func aliasValues() []*Opnd {
 		mkWords(false, []uint64{BW / 2, BW/2 - 1, BW / 2}, -40, 0, 0),
 		mkWords(true, []uint64{0, 0, 5 * (BW / 10)}, 1, 0, 0),
 		mkSpecial(fZero, false, 19, 0), mkSpecial(fZero, true, 19, 0), mkSpecial(fInf, false, 19, 0), mkSpecial(fInf, true, 19, 0),
+		mkSpecial(fZero, true, 19, 0).withStale(3), mkSpecial(fInf, false, 19, 0).withStale(1), // specials in variables with a history
 	}
 	// a 100-word value (pooled scratch paths in Mul/Quo)
 	w := make([]uint64, 100)
